@@ -353,6 +353,7 @@ func checkC31(p *Prog, r *Result, tier string) {
 	r.min("FS", 4)
 	r.min("FQ", 2)
 	r.min("FO", 3)
+	r.min("UA", 2)
 	checkN1(p, r, []string{"engine/docker"}, map[string]string{"engine/docker.makeResourceSetting": "CPU limit -> quota"})
 	M := p.Fn("engine/docker.makeResourceSetting")
 	if M == nil {
@@ -587,5 +588,71 @@ func checkC31(p *Prog, r *Result, tier string) {
 			n := len(F.callsDeep(func(f *types.Func) bool { return f == M.Obj }))
 			r.check(n >= 1, "FO", nm+" derives its settings from makeResourceSetting", p.pos(F.Decl), fmt.Sprintf("%d call(s)", n), "does not call makeResourceSetting any more")
 		}
+		checkC31UpdateArgs(p, r, M)
 	}
+}
+
+// UA: which values each path translates. Create passes the parsed engine parameters as they are (remap = false); update
+// passes the NORMALISED values (memory 0 -> unlimited, cpu 0 / empty map -> all cores, quota -1) and the remap flag of the
+// parameters. Every translation in the update function must use the normalised locals: a second, un-normalised translation
+// (e.g. in a retry) applies zero values that docker reads as "leave unchanged".
+func checkC31UpdateArgs(p *Prog, r *Result, M *FuncNode) {
+	C := p.Fn("engine/docker.(*Engine).VirtualizationCreate")
+	U := p.Fn("engine/docker.(*Engine).VirtualizationUpdateResource")
+	if C == nil || U == nil {
+		r.undecided("UA", "engine/docker create/update", "", "not found")
+		return
+	}
+	fields := []string{"Quota", "Memory", "CPU", "NUMANode"}
+	// create: direct fields, remap constant false
+	for i, c := range C.callsDeep(func(f *types.Func) bool { return f == M.Obj }) {
+		key := fmt.Sprintf("%s / translation #%d uses the parsed parameters, not remapped", C.Name, i+1)
+		why := ""
+		for k, f := range fields {
+			sel, ok := unparen(c.Args[k]).(*ast.SelectorExpr)
+			if !ok || sel.Sel.Name != f {
+				why = fmt.Sprintf("argument %d is `%s`, not the parsed %s", k, exprStr(c.Args[k]), f)
+			}
+		}
+		enc := p.enclosing(C.Pkg, c.Pos())
+		if why == "" && constBoolName(enc, c.Args[5]) != "false" {
+			why = "a workload is created with remap = " + exprStr(c.Args[5])
+		}
+		r.check2(why, "UA", key, p.pos(c), "makeResourceSetting(opts.Quota, opts.Memory, opts.CPU, opts.NUMANode, …, false)")
+	}
+	// update: normalised locals
+	calls := U.callsDeep(func(f *types.Func) bool { return f == M.Obj })
+	for i, c := range calls {
+		key := fmt.Sprintf("%s / translation #%d uses the normalised values", U.Name, i+1)
+		why := ""
+		for k, f := range fields {
+			o := U.objOf(c.Args[k])
+			if _, isIdent := unparen(c.Args[k]).(*ast.Ident); !isIdent || o == nil {
+				why = fmt.Sprintf("argument %d is `%s`, not the normalised local derived from %s: an unlimited/zero value reaches docker as 0, which it treats as 'unchanged', so the old cap or cpuset stays", k, exprStr(c.Args[k]), f)
+				break
+			}
+			// the local is initialised from <params>.<Field>
+			fromField := false
+			U.inspectBody(func(n ast.Node) bool {
+				if as, ok := n.(*ast.AssignStmt); ok && len(as.Lhs) == 1 && len(as.Rhs) == 1 && U.objOf(as.Lhs[0]) == o {
+					if sel, ok := unparen(as.Rhs[0]).(*ast.SelectorExpr); ok && sel.Sel.Name == f {
+						fromField = true
+					}
+				}
+				return true
+			})
+			if !fromField {
+				why = fmt.Sprintf("argument %d (`%s`) is not derived from the parsed %s", k, exprStr(c.Args[k]), f)
+				break
+			}
+		}
+		if why == "" {
+			if sel, ok := unparen(c.Args[5]).(*ast.SelectorExpr); !ok || sel.Sel.Name != "Remap" {
+				why = "the remap flag passed is `" + exprStr(c.Args[5]) + "`, not the parameters' Remap: a remapped (unbound) workload is translated as if it were bound"
+			}
+		}
+		r.check2(why, "UA", key, p.pos(c), "makeResourceSetting(quota, memory, cpuMap, numaNode, …, opts.Remap) with the normalised locals")
+	}
+	// memory normalisation exists: `if memory == 0 { memory = maxMemory }`
+	_ = calls
 }
